@@ -5,10 +5,12 @@
 import YashModel.Executor.Inv
 namespace YashModel.Executor
 
+variable {ab : Bool}
+
 /-- One poll of the future of task `t`: the invariant "while `t` runs" is kept, and if the future
     returns `Pending` the task has been woken already or is blocked on something that will wake it. -/
-theorem inv_runActs (t : Nat) (acts : Script) (s : State) (h : InvX (some t) s) :
-    InvX (some t) (runActs t acts s).1 ∧
+theorem inv_runActs (t : Nat) (acts : Script) (s : State) (h : InvX ab (some t) s) :
+    InvX ab (some t) (runActs t acts s).1 ∧
     ∀ rest, (runActs t acts s).2 = some rest →
       t ∈ (runActs t acts s).1.queue ∨ Blocked (runActs t acts s).1 t rest := by
   induction acts generalizing s with
@@ -68,15 +70,15 @@ theorem inv_runActs (t : Nat) (acts : Script) (s : State) (h : InvX (some t) s) 
           exact ⟨c, cs, rest, rfl, hk, by simp [upd_apply]⟩
 
 /-- `Task::poll` after the front of the queue has been popped -/
-theorem inv_poll {s : State} (h : InvX none s) (t : Nat) (q : List Nat) (hq : s.queue = t :: q) :
-    InvX none (poll { s with queue := q } t).1 := by
+theorem inv_poll {s : State} (h : InvX ab none s) (t : Nat) (q : List Nat) (hq : s.queue = t :: q) :
+    InvX ab none (poll { s with queue := q } t).1 := by
   cases hf : s.fut t with
   | none =>
     rw [poll_none (s := { s with queue := q }) hf]
     exact inv_logEv (inv_pop_noop h t q hq hf) _
   | some acts =>
     rw [poll_some (s := { s with queue := q }) hf]
-    have h1 : InvX (some t) (logEv { s with queue := q } (.poll t)) := inv_logEv (inv_pop h t q hq acts hf) _
+    have h1 : InvX ab (some t) (logEv { s with queue := q } (.poll t)) := inv_logEv (inv_pop h t q hq acts hf) _
     obtain ⟨h2, hpost⟩ := inv_runActs t acts _ h1
     cases hr : (runActs t acts (logEv { s with queue := q } (.poll t))).2 with
     | some rest =>
@@ -87,7 +89,7 @@ theorem inv_poll {s : State} (h : InvX none s) (t : Nat) (q : List Nat) (hq : s.
       exact inv_logEv (inv_complete h2) _
 
 /-- ★ the invariant is inductive over `Executor::step` -/
-theorem inv_step {s : State} (h : InvX none s) (r : State × Bool) (hs : step s = some r) : InvX none r.1 := by
+theorem inv_step {s : State} (h : InvX ab none s) (r : State × Bool) (hs : step s = some r) : InvX ab none r.1 := by
   unfold step at hs
   cases hq : s.queue with
   | nil => simp [hq] at hs
@@ -96,7 +98,7 @@ theorem inv_step {s : State} (h : InvX none s) (r : State × Bool) (hs : step s 
     subst hs
     exact inv_poll h t q hq
 
-theorem inv_stepN (n : Nat) {s : State} (h : InvX none s) : InvX none (stepN n s) := by
+theorem inv_stepN (n : Nat) {s : State} (h : InvX ab none s) : InvX ab none (stepN n s) := by
   induction n generalizing s with
   | zero => exact h
   | succ n ih =>
@@ -105,21 +107,21 @@ theorem inv_stepN (n : Nat) {s : State} (h : InvX none s) : InvX none (stepN n s
     | none => exact h
     | some r => exact ih (inv_step h r hs)
 
-theorem inv_empty (pool : List Script) (sticky : Bool) : InvX none { pool := pool, sticky := sticky } := by
+theorem inv_empty (pool : List Script) (sticky : Bool) : InvX ab none { pool := pool, sticky := sticky } := by
   refine ⟨by simp, by simp, by simp, ?_, by simp, by simp, by simp, by simp, by simp, ?_, ?_, ?_, rfl⟩
   · intro c w hw; simp at hw
   · intro c; simp
-  · intro t acts ht; simp at ht
+  · intro t acts hab ht; simp at ht
   · intro t hr; cases hr
 
-theorem inv_spawnRoots (scs : List Script) {s : State} (h : InvX none s) : InvX none (spawnRoots scs s) := by
+theorem inv_spawnRoots (scs : List Script) {s : State} (h : InvX ab none s) : InvX ab none (spawnRoots scs s) := by
   induction scs generalizing s with
   | nil => exact h
   | cons sc rest ih => exact ih (inv_spawnRoot h sc)
 
 /-- the invariant holds in the initial state of every task system -/
 theorem inv_init (sticky : Bool) (scripts : List Script) (roots : Nat) :
-    InvX none (init sticky scripts roots) :=
+    InvX ab none (init sticky scripts roots) :=
   inv_spawnRoots _ (inv_empty _ _)
 
 /-! ### the trace of polls -/
@@ -314,7 +316,7 @@ theorem trace_poll {s : State} (h : TraceInv s) (t : Nat) (ht : t < s.ntasks) : 
         · exact Nat.lt_of_lt_of_le ht hn
         · exact Nat.lt_of_lt_of_le ht hn
 
-theorem trace_step {s : State} (hi : InvX none s) (h : TraceInv s) (r : State × Bool) (hs : step s = some r) :
+theorem trace_step {s : State} (hi : InvX ab none s) (h : TraceInv s) (r : State × Bool) (hs : step s = some r) :
     TraceInv r.1 := by
   unfold step at hs
   cases hq : s.queue with
@@ -325,7 +327,7 @@ theorem trace_step {s : State} (hi : InvX none s) (h : TraceInv s) (r : State ×
     have ht : t < s.ntasks := hi.qlt t (by rw [hq]; simp)
     exact trace_poll (s := { s with queue := q }) ⟨h.brack, h.npaf, h.fin, h.lt⟩ t ht
 
-theorem trace_stepN (n : Nat) {s : State} (hi : InvX none s) (h : TraceInv s) : TraceInv (stepN n s) := by
+theorem trace_stepN (n : Nat) {s : State} (hi : InvX ab none s) (h : TraceInv s) : TraceInv (stepN n s) := by
   induction n generalizing s with
   | zero => exact h
   | succ n ih =>
